@@ -333,7 +333,7 @@ def reduce_violation(check_session, v, budget_s=25.0):
     if not isinstance(v.case, dict) or 'scenario' not in v.case:
         return v
     best = v
-    extra_keys = ('fault', 'schedule2', 'attempts', 'policy')
+    extra_keys = ('fault', 'schedule2', 'attempts', 'policy', 'second')
 
     def attempt(scenario, schedule, extra):
         nonlocal best
@@ -398,7 +398,7 @@ def replay(pid, rec):
     mod = __import__(f'vf.props.{pid.lower()}', fromlist=['x'])
     for sched in ([{'kind': 'replay', 'trace': c['trace']}] if c.get('trace') else []) + [c['schedule']]:
         try:
-            mod.check_session(scenario, sched, None, **{k: c[k] for k in ('fault', 'schedule2', 'attempts', 'policy', 'real_sockets', 'real_process') if k in c})
+            mod.check_session(scenario, sched, None, **{k: c[k] for k in ('fault', 'schedule2', 'attempts', 'policy', 'real_sockets', 'real_process', 'second') if k in c})
         except Violation as v:
             return v
     return None
